@@ -4,6 +4,7 @@ Direct oracle: an independent recursive-descent recogniser + printer, in this fi
 import itertools
 
 import gtirb_from_repo
+from common import exc_name
 from common import ERR_CODES, model_batch, zs
 
 LEVEL = "proof"
@@ -180,8 +181,56 @@ TEST_NAMES = ["foo", "foo<bar>", "foo<bar<baz>>", "foo<bar,baz>", "foo<bar<baz>,
               "$x<", "a.b<c*>", "a<(b>", "a<b)>,", "^a<b>$", "a|b<", "'a'<\"b\">", "'<", "`<`>"]
 
 
+def through_entry_points(ctx, g):
+    """The grammar decides at the public entry points too (Serialization.encode / decode with a type_name), whatever the codec table
+    holds: a codec registered -- on a private instance -- under a key that is no grammar name does not make that string a type
+    name, and a key that IS a parameterised name does not replace its parse tree by a leaf."""
+    import io
+    ser = g.serialization
+
+    class Probe(ser.Codec):
+        @staticmethod
+        def decode(raw_bytes, serialization, subtypes, get_by_uuid=None):
+            return "PROBE"
+
+        @staticmethod
+        def encode(out, val, serialization, subtypes, **kw):
+            out.write(b"PROBE")
+    S = ser.Serialization()
+    bad_keys = ["blob<", "a,b", "x>", "", "vec<int>x", "pair<a,>", "<", ",", "a<b>>"]
+    for k in bad_keys + ["sequence<uint8_t>", "mapping<string,uint8_t>", "probe"]:
+        S.codecs[k] = Probe
+    for k in bad_keys:
+        for what, f in (("encode", lambda: S.encode(io.BytesIO(), 5, k)), ("decode", lambda: S.decode(b"\x05", k))):
+            ctx.case("entry:%s:%r" % (what, k), True)
+            ctx.count("entry_point_cases")
+            try:
+                f()
+                got = "accepted"
+            except Exception as e:  # noqa: BLE001
+                got = exc_name(g, e)
+            if got != "TypeNameError":
+                ctx.add("oracle", "parse-differs-from-grammar", "with a codec registered under the key %r, %s with that string as type name is %s; it is no grammar "
+                        "name and must be rejected with TypeNameError" % (k, what, got), {"type_name": k, "entry_point": what, "got": got})
+    buf = io.BytesIO()
+    try:
+        S.encode(buf, [1, 2], "sequence<uint8_t>")
+        got = buf.getvalue()
+    except Exception as e:  # noqa: BLE001
+        got = exc_name(g, e)
+    ctx.case("entry:param-key", True)
+    if got != (2).to_bytes(8, "little") + b"\x01\x02":
+        ctx.add("oracle", "parse-differs-from-grammar", "with a codec registered under the key 'sequence<uint8_t>', that type name is no longer parsed into "
+                "sequence[uint8_t] (encode gives %r)" % (got,), {"type_name": "sequence<uint8_t>"})
+    buf = io.BytesIO()
+    S.encode(buf, 1, "probe")
+    if buf.getvalue() != b"PROBE":
+        ctx.add("oracle", "parse-differs-from-grammar", "a codec registered under a plain name is not used", {"type_name": "probe"})
+
+
 def run(ctx):
     g = gtirb_from_repo.load()
+    through_entry_points(ctx, g)
     cases = []
     maxlen = 7 if ctx.quick else 9
     alphabet = "ab<>,"
